@@ -872,3 +872,110 @@ Proof.
   intros c daH posts sp Hin Hg Hs. unfold posted_events. apply in_flat_map.
   exists (PSigned sp). split; [exact Hin|]. rewrite Hg, Hs. left. reflexivity.
 Qed.
+
+(* ---- the signature payload of headers --------------------------------------------------------------- *)
+(* with the node's provider installed when ValidateBasic runs, a header blob is admitted iff it is genuine
+   for the node's chain *)
+Lemma hd_sig_valid_configured : forall conf hp, hd_sig_valid VConfigured conf hp = hd_genuineb conf hp.
+Proof. reflexivity. Qed.
+
+Lemma header_admitted_iff_thm : forall conf hp,
+  (hd_genuineb conf hp = true -> view_hd VConfigured conf hp = PHeader (hd_id hp)) /\
+  (hd_genuineb conf hp = false -> view_hd VConfigured conf hp = PJunk junk_bad_header).
+Proof.
+  intros conf hp. unfold view_hd. change (hd_sig_valid VConfigured conf hp) with (hd_genuineb conf hp).
+  split; intros H; rewrite H; reflexivity.
+Qed.
+
+Lemma genuine_header_admitted_thm : forall conf hp m, hd_genuineb conf hp = true ->
+  classify m (view VConfigured conf (XHeader hp)) = BHeader (hd_id hp).
+Proof.
+  intros conf hp m H. cbn [view]. rewrite (proj1 (header_admitted_iff_thm conf hp) H). reflexivity.
+Qed.
+
+(* on a chain with the default provider the fall-back cannot be told from the configured one *)
+Lemma fallback_same_on_default_chain : forall x, view VFallback default_scheme x = view VConfigured default_scheme x.
+Proof. intros [hp|p]; reflexivity. Qed.
+
+Lemma pcontent_pda_of : forall v conf c xda n,
+  pcontent c (pda_of v conf xda) n = map (view v conf) (xcontent c xda n).
+Proof.
+  intros v conf c xda n. unfold pcontent, xcontent. destruct (n <? boot c); [reflexivity|].
+  unfold pda_of. rewrite map_map. cbn [hp_posts].
+  rewrite <- (map_map xp_posts (map (view v conf))).
+  change (@nil post) with (map (view v conf) []). rewrite map_nth. reflexivity.
+Qed.
+
+Lemma posted_events_admit : forall conf c daH xs,
+  posted_events c daH (map (view VConfigured conf) xs) = xposted_events conf c daH xs.
+Proof.
+  intros conf c daH xs. unfold posted_events, xposted_events.
+  induction xs as [|x r IH]; [reflexivity|].
+  cbn [map flat_map]. rewrite IH. f_equal.
+  destruct x as [hp|p].
+  - cbn [view]. unfold view_hd. change (hd_sig_valid VConfigured conf hp) with (hd_genuineb conf hp).
+    destruct (hd_genuineb conf hp); [|reflexivity].
+    cbn [andb]. destruct (mem (hd_id hp) (c_seen_h c)); reflexivity.
+  - cbn [view]. unfold posted_events. cbn [flat_map]. rewrite app_nil_r. reflexivity.
+Qed.
+
+Lemma xhanded_ok_of_handed_ok : forall conf c xda r,
+  handed_ok c (pda_of VConfigured conf xda) r -> xhanded_ok VConfigured conf c xda r.
+Proof.
+  intros conf c xda r (_ & H1 & H2). split; [exact H1|].
+  rewrite H2, pcontent_pda_of, posted_events_admit. reflexivity.
+Qed.
+
+Lemma hands_over_headers_thm : forall conf c xda h,
+  Forall (xhanded_ok VConfigured conf c xda) (iterations c (da_of DCopyAll (pda_of VConfigured conf xda)) h).
+Proof.
+  intros conf c xda h. eapply Forall_impl; [|apply hands_over_thm].
+  intros r H. apply xhanded_ok_of_handed_ok. exact H.
+Qed.
+
+Lemma ticks_hands_over_headers_thm : forall conf c xda tick ts,
+  Forall (xhanded_ok VConfigured conf c xda)
+         (literations RNonBlocking c (linit c (da_of DCopyAll (pda_of VConfigured conf xda)) tick) ts).
+Proof.
+  intros conf c xda tick ts. eapply Forall_impl; [|apply ticks_hands_over_thm].
+  intros r H. apply xhanded_ok_of_handed_ok. exact H.
+Qed.
+
+Lemma headers_no_skip_thm : forall conf c xda h n,
+  boot c <= n < s_cursor (final c (da_of DCopyAll (pda_of VConfigured conf xda)) h) ->
+  exists r, In r (iterations c (da_of DCopyAll (pda_of VConfigured conf xda)) h) /\ i_height r = n /\ i_next r = n + 1 /\
+            i_loop r = true /\ i_result r = PNil /\
+            (last (i_classes r) AError = ASuccess \/ last (i_classes r) AError = ANotFound) /\
+            map erase (handed DCopyAll c (pda_of VConfigured conf xda) r) = i_events r /\
+            handed DCopyAll c (pda_of VConfigured conf xda) r =
+            (if succeeded (i_classes r) then xposted_events conf c n (xcontent c xda n) else []).
+Proof.
+  intros conf c xda h n Hn.
+  destruct (payload_no_skip_thm c (pda_of VConfigured conf xda) h n Hn) as (r & Hin & Hh & Hnx & Hl & Hr & Hc & He & Hp).
+  exists r. repeat (split; [assumption|]).
+  rewrite Hp, pcontent_pda_of, posted_events_admit. reflexivity.
+Qed.
+
+Lemma ticks_headers_no_skip_thm : forall conf c xda tick ts n,
+  boot c <= n < s_cursor (l_scan (fst (lrun RNonBlocking c (linit c (da_of DCopyAll (pda_of VConfigured conf xda)) tick) ts))) ->
+  exists r, In r (literations RNonBlocking c (linit c (da_of DCopyAll (pda_of VConfigured conf xda)) tick) ts) /\
+            i_height r = n /\ i_next r = n + 1 /\ i_loop r = true /\ i_result r = PNil /\
+            (last (i_classes r) AError = ASuccess \/ last (i_classes r) AError = ANotFound) /\
+            map erase (handed DCopyAll c (pda_of VConfigured conf xda) r) = i_events r /\
+            handed DCopyAll c (pda_of VConfigured conf xda) r =
+            (if succeeded (i_classes r) then xposted_events conf c n (xcontent c xda n) else []).
+Proof.
+  intros conf c xda tick ts n Hn.
+  destruct (ticks_payload_no_skip_thm c (pda_of VConfigured conf xda) tick ts n Hn) as (r & Hin & Hh & Hnx & Hl & Hr & Hc & He & Hp).
+  exists r. repeat (split; [assumption|]).
+  rewrite Hp, pcontent_pda_of, posted_events_admit. reflexivity.
+Qed.
+
+(* a genuine, unseen header of the chain among the posts is among the posted events *)
+Lemma xposted_header_in : forall conf c daH xs hp,
+  In (XHeader hp) xs -> hd_genuineb conf hp = true -> mem (hd_id hp) (c_seen_h c) = false ->
+  In (PEHeader (hd_id hp) daH) (xposted_events conf c daH xs).
+Proof.
+  intros conf c daH xs hp Hin Hg Hs. unfold xposted_events. apply in_flat_map.
+  exists (XHeader hp). split; [exact Hin|]. rewrite Hg, Hs. left. reflexivity.
+Qed.
